@@ -84,6 +84,11 @@ def gen_case(rng: Rng, i: int, tier: str):
         kind = "bomb"
         seq = [{"op": op} for op in r2.pick([["getnames", "extractall_f"], ["testzip"], ["extract", "reset", "testzip"], ["list", "test", "extractall_f", "reset", "extractall_f"]])]
         return {"base": base, "kind": kind, "mseed": r.randrange(1 << 30), "seq": seq, "open": r.pick(["stream", "path"]), "chunk": r.pick([4096, 128000000])}
+    if r2.chance(0.01):
+        # directed: a large, highly compressible header (1500 long directory names) packed into a few KiB, and an outer
+        # EncodedHeader record rewritten to declare hundreds of folders over that one packed stream
+        return {"base": {"bigheader": {"members": 1500, "namelen": 150}}, "kind": "many_header_folders", "mseed": r.randrange(1 << 30),
+                "seq": [{"op": "getnames"}], "open": r.pick(["stream", "path"]), "chunk": 128000000, "folders": r2.pick([700, 1300])}
     if r2.chance(0.15):
         # directed: declared quantities (sizes, positions, counts) far beyond the input, every reading call once
         kind = "sizes"
@@ -116,7 +121,19 @@ def _bomb_image(spec):
     return _BOMBS[key]
 
 
+def _bigheader_image(spec):
+    key = "bigheader%r" % sorted(spec.items())
+    if key not in _BOMBS:
+        _BOMBS.clear()
+        members = [{"name": "d%04d/%s" % (k, "x" * spec["namelen"]), "kind": "dir", "data": None, "mtime": None, "ctime": None, "atime": None, "attrs": 0x10}
+                   for k in range(spec["members"])]
+        _BOMBS[key] = W.build(members, {"folders": [], "header": "lzma", "header_crc": True})
+    return _BOMBS[key]
+
+
 def _base_image(case):
+    if "bigheader" in case["base"]:
+        return _bigheader_image(case["base"]["bigheader"]), None, None
     if "bomb" in case["base"]:
         return _bomb_image(case["base"]["bomb"]), None, None
     if "fixture" in case["base"]:
@@ -153,6 +170,35 @@ def make_input(case):
         raw = M.serialise(toks)
         data = W.reseal(img, raw, keep_upto=32 + (a.data_end or 0) if a.header_kind == "encoded" else None)
         entered = True
+    elif kind == "many_header_folders":
+        nofs, nsize, _ = struct.unpack("<QQI", img[12:32])
+        outer = img[32 + nofs: 32 + nofs + nsize]
+        toks = M.tokenize(outer)
+        U = [k for k, t in enumerate(toks) if t.section == "encoded/unpackinfo"]
+        lab = [toks[k].label for k in U]
+        try:
+            b0, b1 = lab.index("numcoders"), lab.index("codersunpacksize_id")
+            K = case["folders"]
+            head = [toks[k].copy() for k in U[:b0]]
+            for t in head:
+                if t.label == "numfolders":
+                    t.val = K
+            body = [toks[k] for k in U[b0:b1]]
+            size_tok = toks[U[lab.index("unpacksize")]]
+            end_tok = toks[U[-1]]
+            new_u = head + [t.copy() for _ in range(K) for t in body] + [toks[U[b1]].copy()] + [size_tok.copy() for _ in range(K)] + [end_tok.copy()]
+            toks = toks[:U[0]] + new_u + toks[U[-1] + 1:]
+            raw = M.serialise(toks)
+            data = img[:32 + nofs] + raw
+            import zlib as _z
+
+            data = data[:12] + struct.pack("<QQI", nofs, len(raw), _z.crc32(raw) & 0xFFFFFFFF) + data[32:]
+            data = data[:8] + struct.pack("<I", _z.crc32(data[12:32]) & 0xFFFFFFFF) + data[12:]
+            desc = ["outer EncodedHeader record: %d folders declared over one packed header stream" % K]
+            entered = True
+        except (ValueError, IndexError):
+            data = img
+            desc = ["pristine (outer record not as expected)"]
     elif kind == "bomb" and a is not None and a.header_bytes:
         toks = M.tokenize(a.header_bytes)
         lie = case["base"]["bomb"]["declare"]
